@@ -211,19 +211,27 @@ def _run(prop, tier, seed):
                     replays.append((bi, si, chain, render_doc(chain, seed), "mismatch"))
                 else:
                     out["inconclusive"].append(("Z", "solver returned unknown for %r" % cssb[si]))
-                # a positive witness document (Spec true somewhere) to validate the encoding against the real VM
-                if (zlib.crc32(cssb[si].encode()) + seed) % (2 if tier == "quick" else 1) == 0:
-                    s2 = z3.Solver()
-                    s2.add(ctx.domain)
-                    s2.add(z3.Or([zmodel.spec_selector(ctx, sel, d) for d in range(D)]))
-                    s2.add(z3.Or([z3.Not(zmodel.spec_selector(ctx, sel, d)) for d in range(D)]))
-                    tq = time.time()
-                    r2 = s2.check()
-                    solver_time += time.time() - tq
-                    queries += 1
-                    if r2 == z3.sat:
-                        chain = ctx.model_chain(s2.model())
-                        replays.append((bi, si, chain, render_doc(chain, seed), "validate"))
+                # solver-chosen validation documents: for every depth d a document in which the selector matches
+                # the element at depth d (and does not match at some other depth, when possible); they are replayed
+                # through the real rewriter, which validates the reading of the Ast and exercises the compiled VM
+                if (zlib.crc32(cssb[si].encode()) + seed) % (2 if tier == "quick" else 1) == 0 or len(batch) > 1:
+                    for d in range(D):
+                        s2 = z3.Solver()
+                        s2.add(ctx.domain)
+                        s2.add(zmodel.spec_selector(ctx, sel, d))
+                        others = [z3.Not(zmodel.spec_selector(ctx, sel, e)) for e in range(D) if e != d]
+                        tq = time.time()
+                        s2.push()
+                        s2.add(z3.Or(others))
+                        r2 = s2.check()
+                        if r2 != z3.sat:
+                            s2.pop()
+                            r2 = s2.check()
+                        solver_time += time.time() - tq
+                        queries += 1
+                        if r2 == z3.sat:
+                            chain = ctx.model_chain(s2.model())
+                            replays.append((bi, si, chain, render_doc(chain, seed + d), "validate"))
                 if len(samples) < 12 and (bi % 37 == 0):
                     samples.append({"selectors": cssb, "checked_id": si, "verdict": str(r), "depth": D})
         # replay everything through the real rewriter
